@@ -350,12 +350,37 @@ def run_jobs(jobs, procs=NPROC, progress=False):
             if not j.split:
                 pending.append((j, pool.apply_async(_run_prefix, ((j, None, None),))))
         fr = [(j, pool.apply_async(_frontier, ((j, procs),))) for j in jobs if j.split]
+        exhausted = False
         for j, r in fr:
+            while not r.ready() and time.time() - t0 <= WALL_BUDGET:
+                r.wait(0.5)
+            if not r.ready():
+                # a path of the real code that never returns (seen with a seeded change that makes a greedy loop
+                # non-terminating): the budget applies to the frontier stage as well
+                exhausted = True
+                acc = results.setdefault(j.label, Acc())
+                acc.inc("inconclusive")
+                acc.inc("obligations")
+                acc.inconclusive.append(dict(ob="<exploration budget exhausted>", info=f"job {j.label}: frontier not finished after {WALL_BUDGET:.0f} s wall"))
+                continue
             label, acc, prefixes, w = r.get()
             results[label] = acc
             walls[label] = w
             for p in prefixes:
                 pending.append((j, pool.apply_async(_run_prefix, ((j, p, None, BUDGET),))))
+        if exhausted:
+            # collect what has finished, cut the rest
+            for j, r in pending:
+                if r.ready():
+                    label, acc, leftovers, w = r.get()
+                    results.setdefault(label, Acc()).merge(acc)
+                else:
+                    acc = results.setdefault(j.label, Acc())
+                    acc.inc("inconclusive")
+                    acc.inc("obligations")
+                    acc.inconclusive.append(dict(ob="<exploration budget exhausted>", info=f"job {j.label} stopped after {WALL_BUDGET:.0f} s wall"))
+            pool.terminate()
+            pending = []
         while pending:
             still = []
             progressed = False
